@@ -17,6 +17,16 @@ def start_spec():
          'unique_together': [], 'index_together': [], 'indexes': [], 'constraints': []}]}]}
 
 
+def legacy_spec():
+    """the start signature as an old release left it: unique_together is listed, but was never applied to the
+    database (the flag `__unique_together_applied` is off until a ChangeMeta runs)"""
+    spec = start_spec()
+    m = spec['apps'][0]['models'][0]
+    m['unique_together'] = [['a', 'b']]
+    m['ut_applied'] = False
+    return spec
+
+
 def alphabet(models=('Alpha', 'Beta'), fields=('a', 'b', 'c'), small=False):
     out = []
     for m in models:
